@@ -146,6 +146,16 @@ Definition rect_cells (c : cfg) (r : seg * seg) : list ((Z * Z) * (Z * Z)) :=
       (list_prod (seg_cells (rd c) (fst r)) (seg_cells (cd c) (snd r))).
 Definition cells (c : cfg) : list ((Z * Z) * (Z * Z)) := flat_map (rect_cells c) (copies c).
 
+(* ---- hypotheses of the theorems ----------------------------------------- *)
+(* one dimension: positive tile sizes, and what the wrapper checks *)
+Definition wf1 (d : dim) : Prop := 0 < bY d /\ 0 < bT d /\ 1 <= sz d /\ 0 <= dY d /\ 0 <= dT d.
+(* two dimensions: the wrapper accepted the call; descriptors have positive tile sizes *)
+Definition wf (c : cfg) : Prop :=
+  accept c = true /\ 0 < bY (rd c) /\ 0 < bT (rd c) /\ 0 < bY (cd c) /\ 0 < bT (cd c).
+(* an interval stays inside its source tile and its target tile, and is not empty *)
+Definition seg_in_tiles (d : dim) (s : seg) : Prop :=
+  1 <= s_len s /\ 0 <= s_src s /\ s_src s + s_len s <= bY d /\ 0 <= s_dst s /\ s_dst s + s_len s <= bT d.
+
 (* ---- element level ------------------------------------------------------ *)
 Definition mat := Z -> Z -> Z.
 
